@@ -112,7 +112,7 @@ def gen_late_browser_family(rng):
     svcs = [{"owner": 0, "ty": 0} for _ in range(nsvc)]
     ops = [[rng.choice([0, 1, rng.randint(0, 2000)]), "register", i] for i in range(nsvc)]
     if rng.random() < 0.3:
-        ops.append([rng.randint(3000, 20000), "update", 0])
+        ops.append([rng.randint(3000, 20000), "update", 0] + ([{"other_ttl": rng.choice(PTR_TTLS)}] if rng.random() < 0.5 else []))
     m = rng.choice([1, 5, 10, 30, 37, 38, 40, 45, 50, 56, 57, 60, 65, 70, 74, 75, 76, 80]) * minute + rng.choice([0, 1, rng.randint(0, minute)])
     ops.append([m, "browse", 1, 0])
     if nh >= 3:
@@ -168,6 +168,8 @@ def gen_mixed_ttl_family(rng):
         t += rng.choice([1000, 5000, 16000, 29000, 60000, rng.randint(400, 120000)])
     if rng.random() < 0.25:
         ops.append([t + rng.randint(0, 600000), "update", rng.randrange(nsvc)])
+    if rng.random() < 0.4:  # an update that changes the PTR TTL (shorter -> longer and longer -> shorter)
+        ops.append([t + rng.choice([2000, 30000, rng.randint(0, 900000)]), "update", rng.randrange(nsvc), {"other_ttl": rng.choice(PTR_TTLS)}])
     ops.sort(key=lambda o: (o[0], o[1]))
     return {"simseed": rng.randrange(1 << 30), "hosts": [{"up": 0} for _ in range(nh)], "types": 1, "svcs": svcs, "ops": ops,
             "horizon": rng.choice([5400000, 7500000, 9000000]), "every": rng.choice([120000, 240000, 300000]), "family": "mixed-ttl-long",
@@ -368,7 +370,7 @@ def run_case(case):
 
     sim = vsim.Sim(case["simseed"], maxdelay=100)
     plan = Plan(case["net"])
-    svcs = case["svcs"]
+    svcs = [dict(sv) for sv in case["svcs"]]  # (an `update` op may change a service's TTLs)
     names = {svc_name(i, s["ty"]).lower(): i for i, s in enumerate(svcs)}
     SVC_TY.clear()
     SVC_TY.update({i: s["ty"] for i, s in enumerate(svcs)})
@@ -572,6 +574,8 @@ def run_case(case):
             if sstate[i] != "registered":
                 skipped.append(op)
                 return
+            if len(op) > 3 and isinstance(op[3], dict):  # update with new TTLs: [t, "update", i, {"other_ttl": ..}]
+                svcs[i].update(op[3])
             info = make_info(i, len(versions[i]))
             trace.append([now(), "upd", i])
             api_times.append(now())
@@ -1123,8 +1127,10 @@ def oracle(case, obs):
                                   "it is still missing %d ms after the last change"
                                   % (f["b"], f["host"], miss[0], cbs[-1][0], cbs[-1][0] - obs["lastChange"], after)))
                     else:
-                        v.append(("C07:not-added", "browser %d on H%d does not report registered s%d %d ms after the last change"
-                                  % (f["b"], f["host"], miss[0], after)))
+                        cause = not_added_cause(case, obs, f["b"], miss[0])
+                        v.append(("C07:not-added" + (":" + cause if cause else ""),
+                                  "browser %d on H%d does not report registered s%d %d ms after the last change%s"
+                                  % (f["b"], f["host"], miss[0], after, " (%s)" % cause if cause else "")))
             for b in f["bad"]:
                 if ("b", f["b"], tuple(b)) not in seen:
                     seen.add(("b", f["b"], tuple(b)))
@@ -1161,6 +1167,28 @@ def oracle(case, obs):
             v.append(("C07:lookup-from-added-wrong", "lookup of s%d from the Added callback at %d resolved port %s server %s txt %s addrs %s, advertised %s"
                       % (s, lk["t0"], lk["port"], lk["server"], lk["txt"], lk["addrs"], vs)))
     return v
+
+
+def not_added_cause(case, obs, b, s):
+    """the browser was started after the host's cached PTR(s) had expired but before the 10 s cache cleanup purged it: the replay skips
+    the expired record, and the answer to the browser's question finds the unpurged entry (`async_get_unique`), refreshes it and is
+    reported to the browser as a refresh of a known record, never as Added"""
+    br = obs["browsers"][b]
+    last = None
+    later = False
+    for e in obs["trace"]:
+        if e[1] == "dlv" and e[4] == br["host"]:
+            for it in e[6]:
+                if it[0] == "p" and it[1] == s:
+                    if e[0] <= br["t"]:
+                        last = (it[2], e[0])
+                    elif it[2] > 0:
+                        later = True
+    if last and last[0] > 0 and later:
+        exp = last[1] + eff_ttl(last[0])
+        if exp <= br["t"] < exp + CFG["cleanup"]:
+            return "browser-started-between-expiry-and-purge"
+    return ""
 
 
 def lookup_failure_cause(case, obs, lk):
